@@ -27,7 +27,7 @@ def Stmt.WF : Stmt → Prop
 
 theorem Stmt.Simple.wf {s : Stmt} (h : s.Simple) : s.WF := by cases s <;> simp_all [Stmt.Simple, Stmt.WF]
 
-theorem simple_normal {n : Nat} {s : Stmt} {w : S.W} {o : Out S.W} (hs : s.Simple) (h : exec S n s w = some o) :
+theorem simple_normal {n : Nat} {s : Stmt} {w : S.W} {o : Out S.V S.W} (hs : s.Simple) (h : exec S n s w = some o) :
     ∃ w', o = .normal w' := by
   cases n with
   | zero => simp [exec] at h
@@ -50,7 +50,7 @@ def IterSpec (S : Sem) (n : Nat) : Prop :=
       (stmtSize (.for .skip (some c) post b)) (stmtSize (.for .skip (some c) post b) + bk)
       (stmtSize (.for .skip (some c) post b) + ct) stk w o
 
-theorem OutAt.embedEq {c mid : Code} {i tn tb tc : Nat} {stk : List S.V} {w : S.W} {o : Out S.W} (pre post : Code)
+theorem OutAt.embedEq {c mid : Code} {i tn tb tc : Nat} {stk : List S.V} {w : S.W} {o : Out S.V S.W} (pre post : Code)
     (hc : c = pre ++ mid ++ post) (h : OutAt S mid i tn tb tc stk w o) :
     OutAt S c (csize pre + i) (csize pre + tn) (csize pre + tb) (csize pre + tc) stk w o := by
   subst hc; exact h.embed pre post
@@ -99,28 +99,9 @@ theorem condF_branch (L : Laws S) {cnd : Expr} {c pre post : Code} {off : Int} {
       (w := w1) (s' := stk) (w' := w1) (by simp [hj, hb]) (by simp; omega)
     exact m1.trans (by simpa using m2)
 
-theorem evalList_frag (L : Laws S) : ∀ (args : List Expr) (stk : List S.V) (w : S.W) (vs : List S.V) (w' : S.W),
-    evalList S args w = some (vs, w') → Frag S (cExprs args) stk w (vs.reverse ++ stk) w'
-  | [], stk, w, vs, w', h => by
-    simp only [evalList, Option.some.injEq, Prod.mk.injEq] at h
-    obtain ⟨rfl, rfl⟩ := h
-    simpa [cExprs] using Frag.nil stk w
-  | e :: es, stk, w, vs, w', h => by
-    simp only [evalList, Option.bind_eq_bind, Option.bind_eq_some_iff, Prod.exists, Option.some.injEq, Prod.mk.injEq] at h
-    obtain ⟨v, w1, he, vs', w2, hes, rfl, rfl⟩ := h
-    have f1 : Frag S (cExpr e) stk w (v :: stk) w1 := (expr_all L e).1 _ _ _ _ he
-    have f2 := evalList_frag L es (v :: stk) w1 vs' w2 hes
-    simpa [cExprs] using f1.append f2
-
-theorem evalList_length : ∀ (args : List Expr) (w : S.W) (vs : List S.V) (w' : S.W),
-    evalList S args w = some (vs, w') → vs.length = args.length
-  | [], w, vs, w', h => by
-    simp only [evalList, Option.some.injEq, Prod.mk.injEq] at h
-    obtain ⟨rfl, rfl⟩ := h; rfl
-  | e :: es, w, vs, w', h => by
-    simp only [evalList, Option.bind_eq_bind, Option.bind_eq_some_iff, Prod.exists, Option.some.injEq, Prod.mk.injEq] at h
-    obtain ⟨v, w1, he, vs', w2, hes, rfl, rfl⟩ := h
-    simp [evalList_length es w1 vs' w2 hes]
+theorem evalList_frag (L : Laws S) (args : List Expr) (stk : List S.V) (w : S.W) (vs : List S.V) (w' : S.W)
+    (h : evalList S args w = some (vs, w')) : Frag S (cExprs args) stk w (vs.reverse ++ stk) w' := by
+  simpa [cExprs] using exprs_all L args stk w vs w' h
 
 macro "arith" : tactic =>
   `(tactic| ((try simp only [csize_append, csize_cons, csize_nil, csize_cStmt, cJumpT_size, cJumpF_size, size_jump, size_next,
@@ -204,6 +185,9 @@ theorem stmt_sim (L : Laws S) (M : StmtLaws S) : ∀ n, (∀ s, StmtSpec S n s) 
         | exit w2 =>
           simp only [Option.some.injEq] at h; subst h
           exact aB
+        | ret v w2 =>
+          simp only [Option.some.injEq] at h; subst h
+          exact aB
     refine ⟨?_, ?_⟩
     · -- every statement at fuel n+1
       intro s bk ct stk w o hwf h
@@ -232,6 +216,7 @@ theorem stmt_sim (L : Laws S) (M : StmtLaws S) : ∀ n, (∀ s, StmtSpec S n s) 
           | cont w1 => simp only [Option.some.injEq] at h; subst h; exact a1
           | next w1 => simp only [Option.some.injEq] at h; subst h; exact a1
           | exit w1 => simp only [Option.some.injEq] at h; subst h; exact a1
+          | ret v w1 => simp only [Option.some.injEq] at h; subst h; exact a1
       | expr e =>
         simp only [exec] at h
         split at h
@@ -314,6 +299,7 @@ theorem stmt_sim (L : Laws S) (M : StmtLaws S) : ∀ n, (∀ s, StmtSpec S n s) 
             | cont w2 => exact a
             | next w2 => exact a
             | exit w2 => exact a
+            | ret v w2 => exact a
           | false =>
             simp only [hb, Bool.false_eq_true, if_false] at h
             have m := bf hb (csize (cCondT c) + 2 + stmtSize b + 2) (by simp; omega)
@@ -373,6 +359,7 @@ theorem stmt_sim (L : Laws S) (M : StmtLaws S) : ∀ n, (∀ s, StmtSpec S n s) 
             exact aB
           | next w1 => simp only [Option.some.injEq] at h; subst h; exact aB
           | exit w1 => simp only [Option.some.injEq] at h; subst h; exact aB
+          | ret v w1 => simp only [Option.some.injEq] at h; subst h; exact aB
       | «for» pre c post b =>
         obtain ⟨hpre, hpo, hb⟩ := hwf
         simp only [exec] at h
@@ -448,6 +435,7 @@ theorem stmt_sim (L : Laws S) (M : StmtLaws S) : ∀ n, (∀ s, StmtSpec S n s) 
                 | brk w2 => simp only [Option.some.injEq] at h; subst h; exact aB
                 | next w2 => simp only [Option.some.injEq] at h; subst h; exact aB
                 | exit w2 => simp only [Option.some.injEq] at h; subst h; exact aB
+                | ret v w2 => simp only [Option.some.injEq] at h; subst h; exact aB
             have aR := (rest.embedEq _ _ hcode).cast (i' := stmtSize pre) (tn' := stmtSize (.for pre none post b))
               (tb' := stmtSize (.for pre none post b) + bk) (tc' := stmtSize (.for pre none post b) + ct)
               (by arith) (by arith) (by arith) (by arith)
@@ -521,6 +509,26 @@ theorem stmt_sim (L : Laws S) (M : StmtLaws S) : ∀ n, (∀ s, StmtSpec S n s) 
               (e := .stopExit (S.setExit v w1)) (o := .exit (S.setExit v w1)) (by simp) rfl
             have : MovesHalt S (cExpr e ++ [.exitStatus]) 0 stk w (.exit (S.setExit v w1)) :=
               Moves.thenHalt (by simpa using m1) m2
+            simpa [OutAt, cStmt] using this
+      | ret e =>
+        cases e with
+        | none =>
+          simp only [exec, Option.some.injEq] at h; subst h
+          have : MovesRet S [Instr.retNull] 0 stk w S.nullV w := by
+            intro C pc hc
+            exact ⟨⟨pc + 0, stk, w⟩, .refl _, rfl, .inr ⟨by simpa using hc.fetch, rfl, rfl⟩⟩
+          simpa [OutAt, cStmt] using this
+        | some e =>
+          simp only [exec] at h
+          split at h
+          · simp at h
+          · rename_i v w1 he
+            simp only [Option.some.injEq] at h; subst h
+            have f1 : Frag S (cExpr e) stk w (v :: stk) w1 := (expr_all L e).1 _ _ _ _ he
+            have : MovesRet S (cExpr e ++ [.ret]) 0 stk w v w1 := by
+              intro C pc hc
+              refine ⟨⟨pc + csize (cExpr e), v :: stk, w1⟩, ?_, rfl, .inl ⟨hc.right.fetch, rfl⟩⟩
+              simpa using f1 C pc hc.left
             simpa [OutAt, cStmt] using this
       | block b =>
         simp only [exec] at h
